@@ -159,6 +159,8 @@ SEPS = [' ', '\n', ' /*a\u2028b\u2029*/ ', '\r\n', ' /*c*/ ', '  // x\n']
 
 
 def main(run, tier):
+    from . import parsefwd
+    parsefwd.add(run, tier, positions=True)
     g = core.G()
     shapes = core.Shapes(g)
     pr = printing.Printing(g)
